@@ -56,6 +56,8 @@ impl<T> BlockNode<T> {
     fn set(&self, index: usize, v: T) {
         unsafe {
             let data = self.data.get_unchecked(index & BLOCK_MASK);
+            #[cfg(may_verif)]
+            crate::verif::cell(crate::verif::Op::CellWrite, data.value.get() as usize);
             data.value.get().write(MaybeUninit::new(v));
         }
         // make sure the data is stored before the index is updated
@@ -67,6 +69,8 @@ impl<T> BlockNode<T> {
     #[inline]
     unsafe fn peek(&self, index: usize) -> &T {
         let data = self.data.get_unchecked(index & BLOCK_MASK);
+        #[cfg(may_verif)]
+        crate::verif::cell(crate::verif::Op::CellRead, data.value.get() as usize);
         (*data.value.get()).assume_init_ref()
     }
 
@@ -77,6 +81,8 @@ impl<T> BlockNode<T> {
         debug_assert!(id < BLOCK_SIZE);
         unsafe {
             let data = self.data.get_unchecked(id);
+            #[cfg(may_verif)]
+            crate::verif::cell(crate::verif::Op::CellRead, data.value.get() as usize);
             data.value.get().read().assume_init()
         }
     }
@@ -183,6 +189,8 @@ impl<T> Queue<T> {
 
     /// push a value to the queue
     pub fn push(&self, v: T) {
+        #[cfg(may_verif)]
+        let _vb = crate::verif::Bracket::new();
         let tail = unsafe { &mut *self.tail.block.unsync_load() };
         let push_index = unsafe { self.tail.index.unsync_load() };
         // store the data
@@ -208,6 +216,8 @@ impl<T> Queue<T> {
     ///
     /// not safe if you pop out the head value when hold the data ref
     pub unsafe fn peek(&self) -> Option<&T> {
+        #[cfg(may_verif)]
+        let _vb = crate::verif::Bracket::new();
         let index = self.head.index.unsync_load();
         let push_index = self.tail.index.load(Ordering::Acquire);
         if index == push_index {
@@ -220,6 +230,8 @@ impl<T> Queue<T> {
 
     /// pop from the queue, if it's empty return None
     pub fn pop(&self) -> Option<T> {
+        #[cfg(may_verif)]
+        let _vb = crate::verif::Bracket::new();
         let index = unsafe { self.head.index.unsync_load() };
         let push_index = self.tail.index.load(Ordering::Acquire);
         if index == push_index {
@@ -249,6 +261,8 @@ impl<T> Queue<T> {
     /// get the size of queue
     #[inline]
     pub fn len(&self) -> usize {
+        #[cfg(may_verif)]
+        let _vb = crate::verif::Bracket::new();
         let pop_index = self.head.index.load(Ordering::Relaxed);
         let push_index = self.tail.index.load(Ordering::Acquire);
         push_index.wrapping_sub(pop_index)
@@ -262,6 +276,8 @@ impl<T> Queue<T> {
 
     // bulk pop as much as possible
     pub fn bulk_pop(&self) -> SmallVec<[T; BLOCK_SIZE]> {
+        #[cfg(may_verif)]
+        let _vb = crate::verif::Bracket::new();
         // self.bulk_pop_expect(0, vec)
         let index = unsafe { self.head.index.unsync_load() };
         let push_index = self.tail.index.load(Ordering::Acquire);
